@@ -600,9 +600,22 @@ func (c *control) dirJustify(colon, at bool, params []any) {
 		// Only append to c.out if the rest don't fit in a line.
 		c.argPos = special.argPos
 	}
+	// The line width comes from *print-right-margin*, nil means no limit
+	// and then there is no line to fill.
+	margin := 0
+	switch rm := c.scope.Get(slip.Symbol("*print-right-margin*")).(type) {
+	case nil:
+	case slip.Fixnum:
+		if rm < 0 || slip.ArrayMaxDimension < rm {
+			slip.TypePanic(c.scope, 0, "*print-right-margin*", rm, "non-negative fixnum")
+		}
+		margin = int(rm)
+	default:
+		slip.TypePanic(c.scope, 0, "*print-right-margin*", rm, "non-negative fixnum")
+	}
 	padCnt := mincol
 	if padCnt == 0 {
-		padCnt = int(c.scope.Get(slip.Symbol("*print-right-margin*")).(slip.Fixnum))
+		padCnt = margin
 	}
 	for _, c2 := range segments {
 		c2.process()
@@ -650,8 +663,7 @@ func (c *control) dirJustify(colon, at bool, params []any) {
 		out = append(out, bytes.Repeat(padchar, cnt)...)
 	}
 	if special != nil {
-		max := int(c.scope.Get(slip.Symbol("*print-right-margin*")).(slip.Fixnum))
-		if max < len(out) {
+		if 0 < margin && margin < len(out) {
 			c.out = append(c.out, special.out...)
 		}
 	}
